@@ -66,8 +66,9 @@ func (g *Gen) someId() string {
 	// prefer promises that exist
 	if g.R.Intn(3) != 0 && len(g.S.Last.Promises) > 0 {
 		ids := make([]string, 0, len(g.S.Last.Promises))
+		alsoDone := g.R.Intn(3) == 0
 		for id, p := range g.S.Last.Promises {
-			if p.State == 1 || g.R.Intn(3) == 0 {
+			if p.State == 1 || alsoDone {
 				ids = append(ids, id)
 			}
 		}
